@@ -13,6 +13,8 @@ pub(crate) fn cx_phase(cx: &Context) -> Phase { cx.phase }
 pub(crate) fn cx_set_phase(cx: &mut Context, p: Phase) { cx.phase = p; }
 pub(crate) fn cx_set_root_flag(cx: &mut Context, b: bool) { cx.root_needs_trace = b; }
 pub(crate) fn cx_root_flag(cx: &Context) -> bool { cx.root_needs_trace }
+/// the collector state as a running callback sees it (the callback's Mutation handle wraps the arena's Context)
+pub(crate) fn mc_cx<'a, 'gc>(mc: &'a Mutation<'gc>) -> &'a Context { &mc.context }
 pub(crate) fn cx_all(cx: &Context) -> Option<GcPtr> { cx.all.get() }
 pub(crate) fn cx_sweep(cx: &Context) -> (Option<GcPtr>, Option<GcPtr>) { (cx.sweep, cx.sweep_prev.get()) }
 pub(crate) fn cx_set_sweep(cx: &mut Context, sweep: Option<GcPtr>, prev: Option<GcPtr>) { cx.sweep = sweep; cx.sweep_prev.set(prev); }
